@@ -16,7 +16,6 @@ Nothing here judges anything.
 
 from __future__ import annotations
 
-import os
 import sys
 from pathlib import Path
 from typing import Any
@@ -76,13 +75,11 @@ ECUS: dict[str, type] = {}
 
 
 def transport_class(clsname: str, scheme: str) -> type:
-    k = f"{clsname}"
-    if k not in TRANSPORTS:
-        t = type(clsname, (_SynthTransport,), {"__module__": __name__}, scheme=scheme)
-        TRANSPORTS[k] = t
-        globals()[clsname] = t
-    TRANSPORTS[k].SCHEME = scheme
-    return TRANSPORTS[k]
+    if clsname not in TRANSPORTS:
+        TRANSPORTS[clsname] = type(clsname, (_SynthTransport,), {"__module__": __name__}, scheme=scheme)
+        globals()[clsname] = TRANSPORTS[clsname]
+    TRANSPORTS[clsname].SCHEME = scheme
+    return TRANSPORTS[clsname]
 
 
 def ecu_class(clsname: str, oem: str) -> type:
@@ -201,5 +198,3 @@ def walk_groups(tree: Any, path: tuple[str, ...] = ()) -> list[tuple[tuple[str, 
             out += walk_groups(v.subtree, path + (k,))
     return out
 
-
-_ = os  # (kept for symmetry with the other helpers)
